@@ -6,7 +6,7 @@
 use crate::cfg::Cfg;
 use crate::explore::{Failure, Stats};
 use std::collections::BTreeMap;
-use std::io::Write;
+use std::io::{Read, Write};
 use std::os::unix::fs::{MetadataExt, PermissionsExt};
 use std::path::{Path, PathBuf};
 use std::process::{Command, Stdio};
@@ -36,6 +36,8 @@ pub struct Run {
     pub env: Vec<(String, String)>,
     /// paths (relative to root) to make immutable / special after the tree is written: (path, what)
     pub post: Vec<(String, String)>,
+    /// run the binary as this user (the scratch tree is handed over to it first); None = the harness's own user
+    pub uid: Option<u32>,
 }
 
 pub type Snapshot = BTreeMap<String, (Vec<u8>, i128, u64, u32)>;
@@ -141,11 +143,27 @@ pub fn execute(id: usize, tree: &Tree, run: &Run) -> Outcome {
         std::fs::write(&full, b).unwrap();
     }
     std::fs::create_dir_all(root.join(&run.cwd)).unwrap();
+    if let Some(u) = run.uid {
+        fn give(p: &Path, u: u32) {
+            let _ = std::os::unix::fs::chown(p, Some(u), Some(u));
+            if p.is_dir() {
+                if let Ok(rd) = std::fs::read_dir(p) {
+                    for e in rd.flatten() {
+                        give(&e.path(), u);
+                    }
+                }
+            }
+        }
+        give(&root, u);
+    }
     for (p, what) in &run.post {
         let full = root.join(p);
         match what.as_str() {
             "mode000" => {
                 let _ = std::fs::set_permissions(&full, std::fs::Permissions::from_mode(0o000));
+            }
+            "mode444" => {
+                let _ = std::fs::set_permissions(&full, std::fs::Permissions::from_mode(0o444));
             }
             "immutable" => {
                 let _ = Command::new("chattr").arg("+i").arg(&full).status();
@@ -170,6 +188,10 @@ pub fn execute(id: usize, tree: &Tree, run: &Run) -> Outcome {
         let v = v.replace("$ROOT", &root.to_string_lossy());
         cmd.env(k, v);
     }
+    if let Some(u) = run.uid {
+        use std::os::unix::process::CommandExt;
+        cmd.uid(u).gid(u);
+    }
     let mut child = cmd.spawn().expect("spawn stylua");
     {
         let mut si = child.stdin.take().unwrap();
@@ -181,7 +203,39 @@ pub fn execute(id: usize, tree: &Tree, run: &Run) -> Outcome {
             });
         }
     }
-    let out = child.wait_with_output().expect("wait");
+    // the run must end: a binary that does not terminate is an observation (exit code 2000), not a reason to wait for ever
+    let mut so = child.stdout.take().unwrap();
+    let mut se = child.stderr.take().unwrap();
+    let h1 = std::thread::spawn(move || {
+        let mut v = vec![];
+        let _ = so.read_to_end(&mut v);
+        v
+    });
+    let h2 = std::thread::spawn(move || {
+        let mut v = vec![];
+        let _ = se.read_to_end(&mut v);
+        v
+    });
+    let t0 = std::time::Instant::now();
+    let limit = std::time::Duration::from_secs(std::env::var("MC_RUN_TIMEOUT_S").ok().and_then(|s| s.parse().ok()).unwrap_or(120));
+    let mut nap = 100u64;
+    let status = loop {
+        match child.try_wait() {
+            Ok(Some(st)) => break Some(st),
+            Ok(None) => {
+                if t0.elapsed() > limit {
+                    let _ = child.kill();
+                    let _ = child.wait();
+                    break None;
+                }
+                std::thread::sleep(std::time::Duration::from_micros(nap));
+                nap = (nap * 2).min(5000);
+            }
+            Err(_) => break None,
+        }
+    };
+    let stdout = h1.join().unwrap_or_default();
+    let stderr = h2.join().unwrap_or_default();
     let after = snapshot(&root);
     for (p, what) in &run.post {
         if what == "immutable" {
@@ -189,9 +243,15 @@ pub fn execute(id: usize, tree: &Tree, run: &Run) -> Outcome {
         }
     }
     use std::os::unix::process::ExitStatusExt;
-    let code = out.status.code().unwrap_or_else(|| 1000 + out.status.signal().unwrap_or(0));
-    Outcome { code, stdout: out.stdout, stderr: out.stderr, before, after, root }
+    let code = match status {
+        Some(st) => st.code().unwrap_or_else(|| 1000 + st.signal().unwrap_or(0)),
+        None => TIMEOUT_CODE,
+    };
+    Outcome { code, stdout, stderr, before, after, root }
 }
+
+/// pseudo exit status of a run that had to be killed because it did not end within the limit
+pub const TIMEOUT_CODE: i32 = 2000;
 
 pub fn cleanup(o: &Outcome) {
     let _ = std::fs::remove_dir_all(&o.root);
@@ -253,7 +313,10 @@ where
                 }
                 let s = &scs[i];
                 let o = execute(i, &s.tree, &s.run);
-                let fs = judge(s, &o);
+                let mut fs = judge(s, &o);
+                if o.code == TIMEOUT_CODE {
+                    fs.push(("no-termination".into(), "the run did not end within the limit and was killed".into()));
+                }
                 if only.is_some() {
                     println!("scenario: {}\ntree:", s.desc);
                     for (p, b) in &s.tree.files {
@@ -562,6 +625,14 @@ pub enum Kind {
     VerifyFail,
     Crash,
     Immutable,
+    /// formatted except for its line terminators (CRLF under the default Unix setting)
+    Crlf,
+    /// formatted except that the final line terminator is missing
+    NoEol,
+    /// mode 0444, run as an unprivileged user
+    ReadOnly,
+    /// mode 0000, run as an unprivileged user
+    Unreadable,
 }
 impl Kind {
     pub fn letter(self) -> char {
@@ -574,13 +645,19 @@ impl Kind {
             Kind::VerifyFail => 'V',
             Kind::Crash => 'C',
             Kind::Immutable => 'W',
+            Kind::Crlf => 'L',
+            Kind::NoEol => 'N',
+            Kind::ReadOnly => 'R',
+            Kind::Unreadable => 'X',
         }
     }
     pub fn bytes(self, i: usize) -> Vec<u8> {
         match self {
             Kind::Formatted => format!("local x{} = 1\n", i).into_bytes(),
-            Kind::Unformatted | Kind::Immutable => format!("local   x{}  =  2\n", i).into_bytes(),
+            Kind::Unformatted | Kind::Immutable | Kind::ReadOnly | Kind::Unreadable => format!("local   x{}  =  2\n", i).into_bytes(),
             Kind::Unparseable => format!("local x{} = = 1\n", i).into_bytes(),
+            Kind::Crlf => format!("local x{} = 1\r\nlocal y = 2\r\n", i).into_bytes(),
+            Kind::NoEol => format!("local x{} = 1", i).into_bytes(),
             Kind::InvalidUtf8 => {
                 let mut b = format!("local  s{} = \"", i).into_bytes();
                 b.push(0xff);
@@ -593,7 +670,7 @@ impl Kind {
         }
     }
     pub fn fails(self) -> bool {
-        !matches!(self, Kind::Formatted | Kind::Unformatted)
+        !matches!(self, Kind::Formatted | Kind::Unformatted | Kind::Crlf | Kind::NoEol)
     }
 }
 
@@ -623,6 +700,14 @@ fn layout_paths(kinds: &[Kind], layout: &str) -> Vec<String> {
         .enumerate()
         .map(|(i, _)| match layout {
             "flat" | "dir" => format!("a{}.lua", i),
+            // the last file has a name the traversal does not select and is named explicitly after the directory
+            "dir+txt" => {
+                if i + 1 == kinds.len() {
+                    "e.txt".to_string()
+                } else {
+                    format!("a{}.lua", i)
+                }
+            }
             _ => {
                 if i % 2 == 0 {
                     format!("a{}.lua", i)
@@ -635,10 +720,10 @@ fn layout_paths(kinds: &[Kind], layout: &str) -> Vec<String> {
 }
 
 pub fn c13(thorough: bool, stats: &mut Stats) -> Vec<Failure> {
-    let alpha = [Kind::Formatted, Kind::Unformatted, Kind::Unparseable, Kind::InvalidUtf8, Kind::Missing];
+    let alpha = [Kind::Formatted, Kind::Unformatted, Kind::Unparseable, Kind::InvalidUtf8, Kind::Missing, Kind::Crlf, Kind::NoEol];
     let mut scs = vec![];
     for ks in multisets(&alpha, if thorough { 4 } else { 3 }, false) {
-        for layout in ["flat", "dir", "subdir"] {
+        for layout in ["flat", "dir", "subdir", "dir+txt"] {
             if layout != "flat" && ks.contains(&Kind::Missing) {
                 continue;
             }
@@ -668,6 +753,9 @@ pub fn c13(thorough: bool, stats: &mut Stats) -> Vec<Failure> {
                                 argv.extend(ps);
                             } else {
                                 argv.push(".".into());
+                                if layout == "dir+txt" {
+                                    argv.push("e.txt".into());
+                                }
                             }
                             let desc = format!(
                                 "C13 kinds={} layout={} rot={} format={} verify={} threads={}",
@@ -695,7 +783,7 @@ pub fn c13(thorough: bool, stats: &mut Stats) -> Vec<Failure> {
             f.push(("check-wrote".into(), format!("--check modified / created / touched {:?}", changed)));
         }
         let any_fail = kinds.iter().any(|k| matches!(k, 'P' | 'I' | 'M'));
-        let n_unf = kinds.iter().filter(|k| **k == 'U').count();
+        let n_unf = kinds.iter().filter(|k| matches!(**k, 'U' | 'L' | 'N')).count();
         let want = if any_fail { 2 } else if n_unf > 0 { 1 } else { 0 };
         if o.code != want {
             f.push(("exit-status".into(), format!("exit status {} but expected {} ({} failing, {} differing)", o.code, want, kinds.iter().filter(|k| matches!(k, 'P' | 'I' | 'M')).count(), n_unf)));
@@ -715,13 +803,34 @@ pub fn c13(thorough: bool, stats: &mut Stats) -> Vec<Failure> {
                 }
                 n
             }
-            _ => stdout.lines().filter(|l| l.trim_end().ends_with(".lua")).count(),
+            _ => stdout.lines().filter(|l| l.trim_end().ends_with(".lua") || l.trim_end().ends_with("e.txt")).count(),
         };
         if reported != n_unf {
             f.push(("diff-set".into(), format!("{} files are reported as differing, {} differ", reported, n_unf)));
         }
         f
     })
+}
+
+pub const NOBODY: u32 = 65534;
+
+/// can the binary be started as an unprivileged user, and do permission bits bind it? (needs root, and every ancestor
+/// of the scratch directory and of the binary must be traversable by others)
+pub fn unprivileged_supported() -> bool {
+    // (the probe must not depend on how the subject treats a read-only file: a shell does the write attempt)
+    let root = scratch_root().join("probe-unprivileged");
+    let _ = std::fs::create_dir_all(&root);
+    let f = root.join("f.lua");
+    let _ = std::fs::write(&f, b"local   x = 1\n");
+    let _ = std::os::unix::fs::chown(&root, Some(NOBODY), Some(NOBODY));
+    let _ = std::os::unix::fs::chown(&f, Some(NOBODY), Some(NOBODY));
+    let _ = std::fs::set_permissions(&f, std::fs::Permissions::from_mode(0o444));
+    use std::os::unix::process::CommandExt;
+    let runs = Command::new(BIN).arg("--version").current_dir(&root).uid(NOBODY).gid(NOBODY).stdout(Stdio::null()).stderr(Stdio::null()).status().map(|s| s.success()).unwrap_or(false);
+    let blocked = Command::new("/bin/sh").arg("-c").arg(": >> f.lua").current_dir(&root).uid(NOBODY).gid(NOBODY).stdout(Stdio::null()).stderr(Stdio::null()).status().map(|s| !s.success()).unwrap_or(false);
+    let can_create = Command::new("/bin/sh").arg("-c").arg(": > g.tmp").current_dir(&root).uid(NOBODY).gid(NOBODY).stdout(Stdio::null()).stderr(Stdio::null()).status().map(|s| s.success()).unwrap_or(false);
+    let _ = std::fs::remove_dir_all(&root);
+    runs && blocked && can_create
 }
 
 pub fn c14(thorough: bool, stats: &mut Stats) -> Vec<Failure> {
@@ -732,36 +841,78 @@ pub fn c14(thorough: bool, stats: &mut Stats) -> Vec<Failure> {
         stats.machinery.insert("C14: `chattr +i` has no effect here, the unwritable-file kind is left out".into(), 1);
     }
     let mut scs = vec![];
-    for ks in multisets(&alpha, if thorough { 4 } else { 3 }, true) {
-        for layout in ["flat", "dir", "subdir"] {
-            for verify in [false, true] {
-                if ks.contains(&Kind::VerifyFail) && !verify {
-                    continue; // without --verify nothing rejects the (deliberately wrong) output of the fault hook
+    // (alphabet, run as an unprivileged user?) — permission bits mean nothing to root, so the read-only / unreadable kinds
+    // are run as `nobody` on a tree handed over to it; a missing path can only be named explicitly
+    let mut alpha_m = alpha.clone();
+    alpha_m.push(Kind::Missing);
+    let alpha_u = vec![Kind::Unformatted, Kind::Formatted, Kind::ReadOnly, Kind::Unreadable, Kind::Unparseable];
+    let mut spaces: Vec<(Vec<Vec<Kind>>, Option<u32>)> = vec![(multisets(&alpha_m, if thorough { 4 } else { 3 }, true), None)];
+    if unprivileged_supported() {
+        spaces.push((multisets(&alpha_u, 3, true).into_iter().filter(|ks| ks.iter().any(|k| matches!(k, Kind::ReadOnly | Kind::Unreadable))).collect(), Some(NOBODY)));
+    } else {
+        stats.machinery.insert("C14: cannot run the binary as an unprivileged user here, the read-only / unreadable kinds are left out".into(), 1);
+    }
+    for (sets, uid) in spaces {
+        for ks in sets {
+            for layout in ["flat", "dir", "subdir"] {
+                if layout != "flat" && ks.contains(&Kind::Missing) {
+                    continue;
                 }
-                for nt in [1usize, 4] {
-                    if !thorough && nt == 4 && (layout == "subdir" || ks.len() < 2) {
-                        continue;
+                for verify in [false, true] {
+                    if ks.contains(&Kind::VerifyFail) && !verify {
+                        continue; // without --verify nothing rejects the (deliberately wrong) output of the fault hook
                     }
-                    let paths = layout_paths(&ks, layout);
-                    let mut t = Tree::default();
-                    let mut post = vec![];
-                    for (i, k) in ks.iter().enumerate() {
-                        t.add(&paths[i], &k.bytes(i));
-                        if *k == Kind::Immutable {
-                            post.push((paths[i].clone(), "immutable".to_string()));
+                    for nt in [1usize, 4] {
+                        if !thorough && nt == 4 && (layout == "subdir" || ks.len() < 2) {
+                            continue;
+                        }
+                        for fmt in ["Standard", "Json"] {
+                            // (write mode accepts the standard and the JSON output format)
+                            if fmt == "Json" && !thorough && (ks.len() > 2 || nt == 4 || layout == "subdir") {
+                                continue;
+                            }
+                            if uid.is_some() && (verify || nt == 4) {
+                                continue;
+                            }
+                            let paths = layout_paths(&ks, layout);
+                            let mut t = Tree::default();
+                            let mut post = vec![];
+                            for (i, k) in ks.iter().enumerate() {
+                                if *k == Kind::Missing {
+                                    continue;
+                                }
+                                t.add(&paths[i], &k.bytes(i));
+                                match k {
+                                    Kind::Immutable => post.push((paths[i].clone(), "immutable".to_string())),
+                                    Kind::ReadOnly => post.push((paths[i].clone(), "mode444".to_string())),
+                                    Kind::Unreadable => post.push((paths[i].clone(), "mode000".to_string())),
+                                    _ => {}
+                                }
+                            }
+                            let mut argv: Vec<String> = vec!["--color".into(), "Never".into(), "--num-threads".into(), nt.to_string()];
+                            if verify {
+                                argv.push("--verify".into());
+                            }
+                            if fmt != "Standard" {
+                                argv.extend(["--output-format".into(), fmt.into()]);
+                            }
+                            if layout == "flat" {
+                                argv.extend(paths.clone());
+                            } else {
+                                argv.push(".".into());
+                            }
+                            let desc = format!(
+                                "C14 kinds={} layout={} verify={} threads={} format={} user={}",
+                                ks.iter().map(|k| k.letter()).collect::<String>(),
+                                layout,
+                                verify,
+                                nt,
+                                fmt,
+                                if uid.is_some() { "nobody" } else { "self" }
+                            );
+                            scs.push(Scenario { desc, tree: t, run: Run { argv, env: vec![("STYLUA_VERIF_FAULTS".into(), "1".into())], post, uid, ..Run::default() } });
                         }
                     }
-                    let mut argv: Vec<String> = vec!["--color".into(), "Never".into(), "--num-threads".into(), nt.to_string()];
-                    if verify {
-                        argv.push("--verify".into());
-                    }
-                    if layout == "flat" {
-                        argv.extend(paths.clone());
-                    } else {
-                        argv.push(".".into());
-                    }
-                    let desc = format!("C14 kinds={} layout={} verify={} threads={}", ks.iter().map(|k| k.letter()).collect::<String>(), layout, verify, nt);
-                    scs.push(Scenario { desc, tree: t, run: Run { argv, env: vec![("STYLUA_VERIF_FAULTS".into(), "1".into())], post, ..Run::default() } });
                 }
             }
         }
@@ -774,8 +925,9 @@ pub fn c14(thorough: bool, stats: &mut Stats) -> Vec<Failure> {
         if o.code != want {
             f.push(("exit-status".into(), format!("exit status {} but expected {}", o.code, want)));
         }
+        let present: Vec<char> = kinds.iter().cloned().filter(|k| *k != 'M').collect();
         for (i, (p, b)) in s.tree.files.iter().enumerate() {
-            let k = kinds[i];
+            let k = present[i];
             let Some(after) = o.after.get(p) else {
                 f.push(("file-removed".into(), format!("{} no longer exists", p)));
                 continue;
@@ -792,6 +944,9 @@ pub fn c14(thorough: bool, stats: &mut Stats) -> Vec<Failure> {
                 }
                 if k == 'F' && (after.1 != before.1 || after.2 != before.2) {
                     f.push(("formatted-file-rewritten".into(), format!("{} is already formatted but was rewritten (mtime / inode changed)", p)));
+                }
+                if k != 'F' && (after.2 != before.2 || after.3 != before.3) {
+                    f.push(("failing-file-replaced".into(), format!("{} (kind {}) has been replaced: inode {} -> {}, mode {:o} -> {:o}", p, k, before.2, after.2, before.3, after.3)));
                 }
             }
         }
